@@ -30,7 +30,7 @@ class C11(Check):
         "harness: generators, exact comparison of Booleans / error kinds",
     ]
     assumptions = ["floats denote the exact rationals they are; behaviours are dyadic so float evaluation is exact",
-                   "terms mention at least one variable (Proper)"]
+                   "the property's range is lists whose terms mention a variable; emptiness is also exercised (and isEmpty_iff holds) on rows without variables since fix 0e454c1"]
     min_branches = {"contains:true": 50, "contains:false": 50, "contains:ValueError": 10, "empty:true": 20, "empty:false": 20, "mono": 20}
 
     def generate(self, rng: random.Random, n: int, tier: str) -> List[dict]:
@@ -80,6 +80,14 @@ class C11(Check):
                         gap = rng.choice([2.0 ** -9, -(2.0 ** -9), 2.0 ** -8, 0.0])
                         tl = [dict(c=dict(t["c"]), k=big), {"c": {v: -c for v, c in t["c"].items()}, "k": -big + gap}] + G.rtl(rng, vs, rng.randint(0, 1))
                         rng.shuffle(tl)
+                if rng.random() < 0.06:
+                    # rows without variables (`0 <= k`; beyond the property's stated range, inside the theorem's since the repair of
+                    # is_polytope_empty 0e454c1): alone (a matrix without columns) or mixed into a list with variables
+                    free = [{"c": {}, "k": float(k)} for k in dict.fromkeys(rng.choice([-2, -1, -0.5, 0, 1, 3]) for _r in range(rng.randint(1, 2)))]
+                    tl = free if rng.random() < 0.5 else free + tl
+                    rng.shuffle(tl)
+                    out.append({"kind": "is_empty", "terms": tl, "tag": "varfree"})
+                    continue
                 out.append({"kind": "is_empty", "terms": tl})
             else:
                 pt = {v: float(rng.randint(-3, 3)) for v in vs}
